@@ -17,6 +17,7 @@ EXPLANATION = (
     "counter == number of inputs, and otherwise the scan continues (no Pending on that path); (ZERO) abstract evaluation of the "
     "array/Vec bodies in the zero-length world returns Ready(None) without reaching a child poll, an Indexer::iter call that "
     "divides by the length, or Pending; the 0-tuple body is straight-line Ready(None); (EXT) StreamExt::merge builds (self, other).")
+EXPLANATION += (' (CTOR) the entry point stores every operand, converted by into_stream only, as an input - none dropped, duplicated or reordered.')
 ASSUMPTIONS = [
     "C03.GUARD/MARK: an ended input is never polled again, so the counter counts distinct inputs",
     "the interleaving across inputs is unspecified by the property",
